@@ -46,7 +46,11 @@ def nfc_escape_clause_doc(d):
         for i, ch in enumerate(s[:-1]):
             if ch in "\n\t":
                 letter = "n" if ch == "\n" else "t"
-                if unicodedata.normalize("NFC", letter + s[i + 1]) != letter + s[i + 1]:
+                j = i + 1
+                while j < len(s) and unicodedata.combining(s[j]) != 0:
+                    j += 1
+                run = s[i + 1:j]
+                if run and unicodedata.normalize("NFC", letter + run)[0] != letter:
                     return True
     return False
 
